@@ -121,7 +121,8 @@ directive @vd on VARIABLE_DEFINITION
 var schemaNames = []string{"S1", "S2", "S3"}
 
 func newLabs() map[string]*lab {
-	return map[string]*lab{"S1": newLab("S1", sdl1), "S2": newLab("S2", sdl2), "S3": newLab("S3", sdl3)}
+	// (S4 serves only the enumerated same-name family, see samename_test.go; the general generator does not run on it)
+	return map[string]*lab{"S1": newLab("S1", sdl1), "S2": newLab("S2", sdl2), "S3": newLab("S3", sdl3), "S4": newLab("S4", sdl4)}
 }
 
 // schemaBounds: S3 only serves the abstract-against-abstract pairs, which all sit one level below the root.
@@ -670,6 +671,8 @@ func TestCheck(t *testing.T) {
 	run.Bound("history_pool", len(histPool))
 	run.Bound("history_max_length", histLen)
 	c.histories(labs["S1"], histLen, &unit)
+	// same field name on several types with different argument requirements (tiny, enumerated)
+	c.sameNameFamily(labs["S4"], &unit)
 	for _, sn := range schemaNames {
 		l := labs[sn]
 		g := opgen.NewGen(l.gen)
